@@ -246,7 +246,7 @@ def execute(case):
             tg.cancel_scope.cancel()
 
     try:
-        vclock.run(main, backend=case["backend"], seed=case.get("seed", 0), shuffle=case.get("shuffle", False))
+        vclock.run(main, backend=case["backend"], seed=case.get("seed", 0), shuffle=case.get("shuffle", False), watchdog=True)
     except BaseException as e:  # noqa: BLE001
         events.append({"ev": "crash", "what": repr(e)[:200]})
     return {"id": case["id"], "events": events}
